@@ -29,7 +29,7 @@ from pyrtma import core_defs as cd
 from pyrtma.message import Message
 from pyrtma.header import MessageHeader
 
-from engine import cotwin
+from engine import cotwin, realinit
 from engine.shadow import NoTracing
 from harness.common import sh, set_shard, verdict, reached  # noqa: F401
 
@@ -226,6 +226,9 @@ MSGS = mk_msgs(5)
 
 
 class FakeThread:
+    def start(self):
+        pass
+
     def is_alive(self):
         return True
 
@@ -235,21 +238,9 @@ class FakeThread:
 
 def mk_collection(root, fmt, nsets):
     md = LoggingMetadata()
-    c = object.__new__(DC.DataCollection)
+    # the repository's own __init__ (threads and logging stubbed): every attribute of the current source exists
+    c = realinit.data_collection(DC, root, md, cotwin.Flag, FakeThread)
     c._dead = True
-    c.logger = logging.getLogger("data_logger").getChild("c")
-    c.logger.disabled = True
-    c._recording = False
-    c._paused = False
-    c._close = False
-    c._elapsed_time = 0.0
-    c.ref_time = -1
-    c.start_time = -1
-    c.next_write = -1.0
-    c.name = "c"
-    c.dir_fmt = "coll"
-    c.metadata = md
-    c.datasets = []
     c.write_to_disk = cotwin.Flag()
     c.write_finished = cotwin.Flag()
     c.base_path = pathlib.Path(root)
